@@ -86,11 +86,27 @@ fn near_of(n: &str) -> Type<PortableForm> {
     let vb = scale_info::Variant::<PortableForm>::new(s("B"), vec![], bi, bdocs);
     Type::new(path, tp, scale_info::TypeDefVariant::new(if swap { vec![vb, va] } else { vec![va, vb] }), tdocs)
 }
+/// A CROSS PRODUCT of a few leaves under one path (field name absent / "a" / "b"  x  field type 1 / 2 / 3  x  type
+/// name absent / present): a comparison that picks its key from the PAIR (and so is not transitive) has cycles here.
+fn cross_of(n: &str) -> Type<PortableForm> {
+    let k = idx(n) as usize;
+    // the first values are arranged so that small alphabets already contain (b,1) (-,2) (a,3) and its mirror images
+    const ORDER: [(usize, usize); 9] = [(2, 0), (0, 1), (1, 2), (1, 0), (0, 2), (2, 1), (0, 0), (1, 1), (2, 2)];
+    let (ni, ti) = ORDER[k % 9];
+    let name = [None, Some("a".to_string()), Some("b".to_string())][ni].clone();
+    let tn = if (k / 9) % 2 == 1 { Some("T".to_string()) } else { None };
+    let docs = if k >= 18 { vec![n.to_string()] } else { vec![] };
+    let field = scale_info::Field::<PortableForm>::new(name, ((ti + 1) as u32).into(), tn, vec![]);
+    Type::new(scale_info::Path::from_segments_unchecked(vec!["m".to_string(), "Foo".to_string()]), vec![], scale_info::TypeDefComposite::new(vec![field]), docs)
+}
 fn body_of(n: &str) -> Type<PortableForm> {
     use scale_info::{TypeDefArray, TypeDefBitSequence, TypeDefCompact, TypeDefVariant, Variant};
     let u = UNIVERSE.load(std::sync::atomic::Ordering::SeqCst);
     if u == 1 {
         return near_of(n);
+    }
+    if u == 3 {
+        return cross_of(n);
     }
     let k = idx(n);
     let kind = if u == 2 { (k + 4) % 8 } else { k % 8 };
@@ -251,8 +267,8 @@ fn record(seed: u64, walks: usize, len: usize, path: &str) {
     let mut out = Out::create(path);
     let names: Vec<String> = (0..96).map(|i| format!("v{i}")).collect();
     for w in 0..walks {
-        let kind = ["string", "rev", "body", "builder", "body", "builder"][w % 6];
-        set_universe(if w % 6 >= 4 { 1 } else { 0 }); // Type-valued walks alternate between one body per kind and near misses
+        let kind = ["string", "rev", "body", "builder", "body", "builder", "body", "builder"][w % 8];
+        set_universe(if w % 8 >= 6 { 3 } else if w % 8 >= 4 { 1 } else { 0 }); // Type-valued walks alternate between one body per kind and near misses
         out.put(&json!({"ev": "reset", "kind": kind}));
         let don_s = donor::<String>();
         let don_r = donor::<Rev>();
@@ -360,9 +376,9 @@ fn main() {
             for (i, t) in ts.iter().enumerate() {
                 replay_interner::<String>("string", i, t, &mut out, &mut bad, &mut n);
                 replay_interner::<Rev>("rev", i, t, &mut out, &mut bad, &mut n);
-                for u in [0usize, 1, 2] {
+                for u in [0usize, 1, 2, 3] {
                     set_universe(u);
-                    replay_interner::<Body>(["body", "body/near", "body/kinds"][u], i, t, &mut out, &mut bad, &mut n);
+                    replay_interner::<Body>(["body", "body/near", "body/kinds", "body/cross"][u], i, t, &mut out, &mut bad, &mut n);
                     replay_builder(i, t, &mut out, &mut bad, &mut n);
                 }
                 set_universe(0);
